@@ -3,7 +3,7 @@
 cd "$(dirname "${BASH_SOURCE[0]}")/.."
 mkdir -p .build; LOG=.build/thorough.log
 : > $LOG
-for p in ${@:-C12 C18 C16 C13 C05 C06 C04 C09 C08 C02 C01 C07 C11 C10 C03}; do
+for p in ${@:-C09 C08 C10 C11 C04 C01 C07 C02 C03 C12 C18 C16 C13 C05 C06}; do
   s=$(date +%s)
   ./check $p thorough > .build/thorough-$p.out 2>&1
   rc=$?
